@@ -56,6 +56,9 @@ def param_task(task):
             if c % 5 == 0:
                 a, b = 0.01, 0.01  # the run command's prior
             n = int(rng.integers(1, 60))
+            if c % 7 == 6:
+                # data sets of thousands to hundreds of thousands of points (counts beyond one and two bytes)
+                n = int(10 ** rng.uniform(2.5, 5.5))
             K = [1, n, int(rng.integers(1, n + 1))][c % 3]
             alpha = float(10 ** rng.uniform(-8, 3))
             eta = etas[c % len(etas)] if c % 2 == 0 else float(rng.uniform(1e-6, 1 - 1e-6))
